@@ -32,6 +32,7 @@ THEOREMS = [
     "HgVerif.Dispatch.noMatch_no_candidate",
     "HgVerif.Dispatch.matchArgs_sound",
     "HgVerif.Dispatch.survivor_sound",
+    "HgVerif.Dispatch.tsb_pattern_requires_same_fields",
     "HgVerif.Dispatch.inst_subst_deref",
     "HgVerif.Dispatch.inst_subst_exact",
     "HgVerif.Dispatch.output_is_substitution",
@@ -54,7 +55,15 @@ RULE = ("synthetic overload families (1-6 overloads, arity 1-3) obtained by gene
         "10000, inside TSL / TSD / TSB 5000, two levels down 2500, TS / TSS / TSD-key payload 100, constrained payload 50, "
         "scalar parameter 1) competing with 2-4 candidates over independent variables / structure, at least one of them with "
         "a documented rank between the repeated candidate's per-variable-minimum rank and its per-variable-maximum rank, "
-        "registered all together in both directions and pairwise in both orders; <= 5 argument tuples per family (the seed tuple and REF-wrapped / mutated "
+        "registered all together in both directions and pairwise in both orders; 150 (thorough: 3000) bundle families: a "
+        "field-listing TSB pattern of 1-3 fields (fully concrete fields, one shared variable, independent variables, scalar "
+        "variables, mixed) at top level or under TSL / TSD / TSB / REF / TSL-of-TSB / TSD-of-TSL, alone, with the exact "
+        "(k+1)-field pattern, with a ~X fallback (bare or nested), or with both, called with the bundle of exactly those "
+        "fields and with bundles carrying one or two MORE fields behind them, fewer fields, the same fields in another order, "
+        "a re-named field, a leading extra field, a re-typed field (6 tuples, REF-wrapped at random); on a monitor-only third "
+        "stream 80 (thorough: 1500) such families over NAMED bundles / named patterns (same name, another name for the same "
+        "fields, no name, and the pattern's own name registered for the wider field list); <= 5 argument tuples per family "
+        "elsewhere (the seed tuple and REF-wrapped / mutated "
         "variants); each family registered under 3-6 registration orders. A case is non-trivial when some call has "
         ">= 2 matching candidates (a critical pair: the rank decides) ; distinct by sha1 of the case text")
 TRUSTED = [
@@ -72,7 +81,10 @@ ASSUMPTIONS = [
     "outside the model (not generated, not covered by the theorems): requires_ predicates and default resolvers, "
     "parameter defaults, variadic tails, keyword arguments and **kwargs packing (a declared collector only contributes "
     "its rank penalty; no call supplies a keyword), scalar->const promotion of a plain value into a time-series "
-    "parameter (both drivers answer 'unsupported'), named bundles and bundle inheritance (input_adaptation_rank is 0), "
+    "parameter (both drivers answer 'unsupported'), named bundles (not in the Lean model: the stream 'named-bundles' is "
+    "decided by the monitor on the implementation trace alone - a named field-listing pattern accepts only the named "
+    "bundle of its name with exactly its fields, an un-named pattern ignores the name; named bundles never occur in "
+    "concrete-leaf patterns, schema variables or output patterns there) and bundle inheritance (input_adaptation_rank is 0), "
     "scalar container patterns (tuple/set/map/series/frame/array/bundle), duration windows, the OUTPUT-direction "
     "matcher (expected_output), size hints, initial resolutions, Python-sourced candidates",
     "scalars are the atoms bool/int/float/str; the three numeric atoms coerce into one another "
@@ -103,6 +115,8 @@ NUMERIC = {"bool", "int", "float"}
 # scalar patterns: ('sconc',s) ('svar',name,(cs..))
 # patterns: ('var',name,(cts..)) ('conc',ct) ('TS',sp) ('TSS',sp) ('TSL',tp,size) ('TSD',sp,tp) ('TSW',sp,(p,m)|None)
 #           ('TSB',((f,tp),..)) ('TSBvar',name) ('REF',tp) ('SIGNAL',) ; size: ('fixed',n) ('szvar',name,(ns..))
+# a NAMED bundle (written TSB<name>[..]; only on the monitor-only stream "named-bundles") carries its name as a third
+# component, both as a concrete schema and as a pattern: ('TSB',fields,name)
 # ------------------------------------------------------------------------------------------------
 
 class Bad(Exception):
@@ -165,14 +179,17 @@ def _ct(c):
     if c.eat("TSW["):
         s = _scalar(c); c.expect(","); p = c.number(); c.expect(","); m = c.number(); c.expect("]")
         return ("TSW", s, p, m)
-    if c.eat("TSB["):
+    if c.eat("TSB<") or c.eat("TSB["):
+        name = None
+        if c.s[c.i - 1] == "<":
+            name = c.ident(); c.expect(">"); c.expect("[")
         fs = []
         while True:
             f = c.ident(); c.expect(":"); fs.append((f, _ct(c)))
             if not c.eat(","):
                 break
         c.expect("]")
-        return ("TSB", tuple(fs))
+        return ("TSB", tuple(fs)) if name is None else ("TSB", tuple(fs), name)
     if c.eat("REF["):
         t = _ct(c); c.expect("]"); return mk_ref(t)
     if c.eat("TS["):
@@ -236,14 +253,17 @@ def _tp(c):
         return ("TSW", s, (p, m))
     if c.eat("TSB[~"):
         n = c.ident(); c.expect("]"); return ("TSBvar", n)
-    if c.eat("TSB["):
+    if c.eat("TSB<") or c.eat("TSB["):
+        name = None
+        if c.s[c.i - 1] == "<":
+            name = c.ident(); c.expect(">"); c.expect("[")
         fs = []
         while True:
             f = c.ident(); c.expect(":"); fs.append((f, _tp(c)))
             if not c.eat(","):
                 break
         c.expect("]")
-        return ("TSB", tuple(fs))
+        return ("TSB", tuple(fs)) if name is None else ("TSB", tuple(fs), name)
     if c.eat("REF["):
         t = _tp(c); c.expect("]"); return ("REF", t)
     if c.eat("TS["):
@@ -271,7 +291,8 @@ def show_ct(t):
     if k == "TSL": return "TSL[%s,%d]" % (show_ct(t[1]), t[2])
     if k == "TSD": return "TSD[%s,%s]" % (t[1], show_ct(t[2]))
     if k == "TSW": return "TSW[%s,%d,%d]" % (t[1], t[2], t[3])
-    if k == "TSB": return "TSB[%s]" % ",".join("%s:%s" % (f, show_ct(x)) for f, x in t[1])
+    if k == "TSB":
+        return "TSB%s[%s]" % ("<%s>" % t[2] if len(t) == 3 else "", ",".join("%s:%s" % (f, show_ct(x)) for f, x in t[1]))
     if k == "REF": return "REF[%s]" % show_ct(t[1])
     raise Bad(str(t))
 
@@ -293,7 +314,8 @@ def show_tp(p):
         return "TSL[%s,%s]" % (show_tp(p[1]), zs)
     if k == "TSD": return "TSD[%s,%s]" % (show_sp(p[1]), show_tp(p[2]))
     if k == "TSW": return "TSW[%s,%s]" % (show_sp(p[1]), "*" if p[2] is None else "%d,%d" % p[2])
-    if k == "TSB": return "TSB[%s]" % ",".join("%s:%s" % (f, show_tp(x)) for f, x in p[1])
+    if k == "TSB":
+        return "TSB%s[%s]" % ("<%s>" % p[2] if len(p) == 3 else "", ",".join("%s:%s" % (f, show_tp(x)) for f, x in p[1]))
     if k == "TSBvar": return "TSB[~%s]" % p[1]
     if k == "REF": return "REF[%s]" % show_tp(p[1])
     raise Bad(str(p))
@@ -314,7 +336,7 @@ def deref(c):
     if k == "REF": return deref(c[1])
     if k == "TSL": return ("TSL", deref(c[1]), c[2])
     if k == "TSD": return ("TSD", c[1], deref(c[2]))
-    if k == "TSB": return ("TSB", tuple((f, deref(t)) for f, t in c[1]))
+    if k == "TSB": return ("TSB", tuple((f, deref(t)) for f, t in c[1])) + c[2:]
     return c
 
 
@@ -364,7 +386,12 @@ def pmatch(p, c, b):
     if k == "TSBvar":
         return c[0] == "TSB" and _bind(b, ("ts", p[1]), c, ())
     if k == "TSB":
+        # a field-listing bundle pattern: exactly the pattern's fields - same count, same names, same order - each
+        # matching its child pattern; a NAMED pattern moreover only accepts the named bundle of that name (an un-named
+        # pattern does not look at the name)
         if c[0] != "TSB" or len(c[1]) != len(p[1]):
+            return False
+        if len(p) == 3 and c[2:] != p[2:]:
             return False
         for (f, q), (g, d) in zip(p[1], c[1]):
             if f != g or not pmatch(q, d, b):
@@ -397,7 +424,7 @@ def psubst(p, b):
         return None if s is None or p[2] is None else ("TSW", s, p[2][0], p[2][1])
     if k == "TSB":
         fs = [(f, psubst(q, b)) for f, q in p[1]]
-        return None if any(t is None for _, t in fs) else ("TSB", tuple(fs))
+        return None if any(t is None for _, t in fs) else ("TSB", tuple(fs)) + p[2:]
     if k == "REF":
         t = psubst(p[1], b)
         return None if t is None else mk_ref(t)
@@ -458,7 +485,7 @@ def ground(p, b):
         return ("TSL", ground(p[1], b), z)
     if k == "TSD": return ("TSD", ground(p[1], b), ground(p[2], b))
     if k == "TSW": return ("TSW", ground(p[1], b), p[2])
-    if k == "TSB": return ("TSB", tuple((f, ground(q, b)) for f, q in p[1]))
+    if k == "TSB": return ("TSB", tuple((f, ground(q, b)) for f, q in p[1])) + p[2:]
     if k == "REF": return ("REF", ground(p[1], b))
     return p
 
@@ -496,7 +523,8 @@ def _inst_of(bp, ap, sig, kept):
     if k == "TSD": return _inst_of(bp[1], ap[1], sig, kept) and _inst_of(bp[2], ap[2], sig, kept)
     if k == "TSW": return ap[2] == bp[2] and _inst_of(bp[1], ap[1], sig, kept)
     if k == "TSB":
-        return len(ap[1]) == len(bp[1]) and all(f == g and _inst_of(q, r, sig, kept) for (f, q), (g, r) in zip(bp[1], ap[1]))
+        return ap[2:] == bp[2:] and len(ap[1]) == len(bp[1]) and \
+            all(f == g and _inst_of(q, r, sig, kept) for (f, q), (g, r) in zip(bp[1], ap[1]))
     return False
 
 
@@ -555,7 +583,8 @@ def _gen_of(bp, ap, sig):
     if k == "TSD": return _gen_of(bp[1], ap[1], sig) and _gen_of(bp[2], ap[2], sig)
     if k == "TSW": return ap[2] == bp[2] and _gen_of(bp[1], ap[1], sig)
     if k == "TSB":
-        return len(ap[1]) == len(bp[1]) and all(f == g and _gen_of(q, r, sig) for (f, q), (g, r) in zip(bp[1], ap[1]))
+        return ap[2:] == bp[2:] and len(ap[1]) == len(bp[1]) and \
+            all(f == g and _gen_of(q, r, sig) for (f, q), (g, r) in zip(bp[1], ap[1]))
     return False
 
 
@@ -1201,10 +1230,194 @@ def gen_depth_case(rng, idx):
     return Case(lines)
 
 
+# ---- field-listing bundle patterns against bundles with more / fewer / re-ordered / re-named fields ------------------
+BUNDLE_STREAM = "named-bundles"       # monitor-only (the Lean model has no named bundles)
+_BFIELDS = ["a", "b", "c", "d"]
+_BLEAVES = [("TS", "int"), ("TS", "int"), ("TS", "str"), ("TS", "float"), ("TSS", "int"), ("TSL", ("TS", "int"), 2),
+            ("TSD", "str", ("TS", "int"))]
+# where the bundle sits: (tag, pattern builder, schema builder)
+_BUNDLE_WRAPS = [
+    ("top", lambda q, rng: q, lambda c: c),
+    ("top", lambda q, rng: q, lambda c: c),
+    ("tsl", lambda q, rng: ("TSL", q, rng.choice([("szvar", "N", ()), ("fixed", 2), ("fixed", 0)])), lambda c: ("TSL", c, 2)),
+    ("tsd", lambda q, rng: ("TSD", rng.choice([("svar", "k", ()), ("sconc", "str")]), q), lambda c: ("TSD", "str", c)),
+    ("tsb", lambda q, rng: ("TSB", (("x", q), ("y", ("TS", ("sconc", "int"))))), lambda c: ("TSB", (("x", c), ("y", ("TS", "int"))))),
+    ("ref", lambda q, rng: ("REF", q), lambda c: mk_ref(c)),
+    ("tsl-tsb", lambda q, rng: ("TSL", ("TSB", (("x", q),)), ("szvar", "N", ())), lambda c: ("TSL", ("TSB", (("x", c),)), 3)),
+    ("tsd-tsl", lambda q, rng: ("TSD", ("sconc", "int"), ("TSL", q, ("fixed", 0))), lambda c: ("TSD", "int", ("TSL", c, 2))),
+]
+
+
+def structural_copy(c):
+    """the field-by-field lowering of a fully concrete schema: structure all the way down, concrete scalars"""
+    k = c[0]
+    if k in ("TS", "TSS"): return (k, ("sconc", c[1]))
+    if k == "TSL": return ("TSL", structural_copy(c[1]), ("fixed", c[2]))
+    if k == "TSD": return ("TSD", ("sconc", c[1]), structural_copy(c[2]))
+    if k == "TSW": return ("TSW", ("sconc", c[1]), (c[2], c[3]))
+    if k == "TSB": return ("TSB", tuple((f, structural_copy(t)) for f, t in c[1])) + c[2:]
+    if k == "REF": return ("REF", structural_copy(c[1]))
+    return ("SIGNAL",)
+
+
+def bundle_name(fields, variant="x"):
+    """the registry's bundle names are process-global (one name, one field list): derive the name from the field list"""
+    import hashlib
+    return "B%s%s" % (variant, hashlib.sha1(show_ct(("TSB", tuple(fields))).encode()).hexdigest()[:8])
+
+
+def _bundle_field_patterns(rng, fields, style):
+    out = []
+    for i, (f, t) in enumerate(fields):
+        if style == "concrete":
+            out.append((f, structural_copy(t)))
+        elif style == "shared-var":
+            out.append((f, ("var", "T", ())))
+        elif style == "vars":
+            out.append((f, ("var", "T%d" % i, ())))
+        elif style == "scalar-vars" and t[0] in ("TS", "TSS"):
+            out.append((f, (t[0], ("svar", "s%d" % i, ()))))
+        else:
+            out.append((f, gen_tp(rng, t, 1)))
+    return tuple(out)
+
+
+def _bundle_variants(rng, fields, pool):
+    """(tag, field list) of the argument bundles tried against a pattern that lists `fields`: the same fields, MORE fields
+    behind them, fewer, another order, another field name, another leading field, another field type"""
+    k = len(fields)
+    extra = [(f, t) for f, t in pool if f not in {g for g, _ in fields}]
+    out = [("same", list(fields))]
+    out.append(("wider", list(fields) + extra[:1]))
+    if len(extra) > 1:
+        out.append(("wider2", list(fields) + extra[:2]))
+    if k > 1:
+        out.append(("narrower", list(fields[:-1])))
+        perm = list(fields)
+        while perm == list(fields):
+            rng.shuffle(perm)
+        out.append(("reordered", perm))
+    out.append(("renamed", list(fields[:-1]) + [("z", fields[-1][1])]))
+    out.append(("renamed-wider", list(fields[:-1]) + [("z", fields[-1][1])] + [fields[-1]]))
+    out.append(("shifted", extra[:1] + list(fields)))
+    i = rng.randrange(k)
+    other = rng.choice([t for t in _BLEAVES if t != fields[i][1]])
+    out.append(("retyped", [(f, other if j == i else t) for j, (f, t) in enumerate(fields)]))
+    return out
+
+
+def gen_bundle_case(rng, idx, named=False):
+    """a candidate whose parameter is a field-listing bundle pattern of k fields (generic or fully concrete), alone / with
+    the exact (k+1)-field pattern / with a ~X fallback, called with bundles of exactly those fields, with MORE fields behind
+    them, fewer, re-ordered, re-named, re-typed; at top level and under TSL / TSD / TSB / REF; both registration orders"""
+    lines = ["case %d" % idx]
+    k = rng.choice([1, 2, 2, 2, 3])
+    shared = rng.random() < 0.35
+    leaf = rng.choice(_BLEAVES)
+    pool = [(f, leaf if shared and i < k else rng.choice(_BLEAVES)) for i, f in enumerate(_BFIELDS)]
+    fields = pool[:k]
+    style = "shared-var" if shared and rng.random() < 0.7 else rng.choice(["concrete", "concrete", "vars", "scalar-vars", "mixed"])
+    tag, mk_p, mk_c = rng.choice(_BUNDLE_WRAPS)
+    wide_under_same_name = named and rng.random() < 0.4
+    if named:
+        # the pattern's name is the registered name of the k-field list, or (second mode) of the (k+1)-field list whose
+        # first k fields the pattern lists
+        pname = bundle_name(pool[:k + 1] if wide_under_same_name else fields)
+
+        def mk_bundle(fs, variant="x"):
+            return ("TSB", tuple(fs), bundle_name(fs, variant))
+        short = ("TSB", _bundle_field_patterns(rng, fields, style), pname)
+    else:
+        def mk_bundle(fs, variant="x"):
+            return ("TSB", tuple(fs))
+        short = ("TSB", _bundle_field_patterns(rng, fields, style))
+    two = rng.random() < 0.3                         # a second, ordinary parameter
+    tail_p = [("ts", ("TS", rng.choice([("sconc", "int"), ("svar", "q", ())])))] if two else []
+    tail_a = [("ts", ("TS", "int"))] if two else []
+    ovs = []
+    ps = [("ts", mk_p(short, rng))] + tail_p
+    ovs.append((ps, gen_out(rng, ps), None))
+    comp = rng.choice(["none", "none", "wide", "fallback", "wide+fallback", "wide+fallback", "fallback-nested", "unnamed-twin"])
+    if "wide" in comp:
+        wide_fields = pool[:k + 1]
+        wstyle = style if rng.random() < 0.6 else rng.choice(["concrete", "vars", "mixed"])
+        wide = ("TSB", _bundle_field_patterns(rng, wide_fields, wstyle))
+        if named and rng.random() < 0.5:
+            wide = wide + (bundle_name(wide_fields),)
+        ps = [("ts", mk_p(wide, rng))] + tail_p
+        ovs.append((ps, gen_out(rng, ps), None))
+    if "fallback" in comp:
+        fb = ("var", "X", ()) if comp != "fallback-nested" else mk_p(("var", "X", ()), rng)
+        ps = [("ts", fb)] + tail_p
+        ovs.append((ps, gen_out(rng, ps), None))
+    if comp == "unnamed-twin" and named:            # the same field list without a name: accepts every bundle name
+        ps = [("ts", mk_p(("TSB", short[1]), rng))] + tail_p
+        ovs.append((ps, gen_out(rng, ps), None))
+    rng.shuffle(ovs)
+    labels = ["A", "B", "C", "D"][:len(ovs)]
+    for l, ov in zip(labels, ovs):
+        lines.append(show_ov(l, ov))
+    perms = [list(labels), list(reversed(labels))]
+    while len(perms) < 3 and len(labels) > 2:
+        q = list(labels)
+        rng.shuffle(q)
+        perms.append(q)
+    for q in perms:
+        lines.append("perm " + " ".join(q))
+    variants = _bundle_variants(rng, fields, pool)
+    keep = [v for v in variants if v[0] in ("same", "wider")]
+    rest = [v for v in variants if v[0] not in ("same", "wider")]
+    rng.shuffle(rest)
+    calls = []
+    for vtag, fs in keep + rest[:4]:
+        b = mk_bundle(fs)
+        if named and wide_under_same_name and vtag == "same":
+            continue                                 # that field list is not what the pattern's name is registered for
+        if not named and rng.random() < 0.12:        # REF around a field (a named bundle's field list is fixed by its name)
+            b = (b[0], tuple((f, mk_ref(t)) if j == 0 else (f, t) for j, (f, t) in enumerate(b[1])))
+        a = mk_c(b)
+        if rng.random() < 0.12:
+            a = mk_ref(a)
+        calls.append([("ts", a)] + tail_a)
+    if named:
+        calls.append([("ts", mk_c(mk_bundle(fields, "y")))] + tail_a)           # the same fields under another name
+        calls.append([("ts", mk_c(("TSB", tuple(fields))))] + tail_a)           # the same fields without a name
+        calls.append([("ts", mk_c(("TSB", tuple(pool[:k + 1]))))] + tail_a)     # one more field, without a name
+    for c in calls:
+        lines.append(show_call(c))
+    return Case(lines)
+
+
+def _bundle_relation(p, c, feats, depth=0):
+    """histogram: how the bundles of an argument relate to the field-listing bundle patterns they meet"""
+    k = p[0]
+    if k == "REF":
+        return _bundle_relation(p[1], c[1] if c[0] == "REF" else c, feats, depth)
+    c = strip_refs(c)
+    if k == "TSL" and c[0] == "TSL": _bundle_relation(p[1], c[1], feats, depth + 1)
+    elif k == "TSD" and c[0] == "TSD": _bundle_relation(p[2], c[2], feats, depth + 1)
+    elif k == "TSB" and c[0] == "TSB":
+        pn, cn = [f for f, _ in p[1]], [f for f, _ in c[1]]
+        if pn == cn: rel = "same-fields"
+        elif cn[:len(pn)] == pn: rel = "MORE-fields-behind-the-pattern's"
+        elif pn[:len(cn)] == cn: rel = "fewer-fields"
+        elif sorted(pn) == sorted(cn): rel = "same-fields-other-order"
+        else: rel = "other-field-names"
+        feats.add("bundle-arg:%s%s" % (rel, ":nested" if depth else ""))
+        if len(p) == 3:
+            feats.add("bundle-arg:named-pattern-vs-%s" % ("un-named" if len(c) == 2 else "same-name" if c[2] == p[2] else "other-name"))
+        if all(q[0] not in ("var", "TSBvar", "SIGNAL") and not pvars(q, set()) for _, q in p[1]):
+            feats.add("bundle-pattern:fully-concrete-fields")
+        for (f, q), (g, d) in zip(p[1], c[1]):
+            if f == g: _bundle_relation(q, d, feats, depth + 1)
+
+
 def streams(rng, tier, seed):
     n = 900 if tier == "quick" else 12000
     cases = [gen_case(rng, i, tier) for i in range(n)]
     cases += [gen_depth_case(rng, 30000 + i) for i in range(150 if tier == "quick" else 3000)]
+    cases += [gen_bundle_case(rng, 40000 + i) for i in range(150 if tier == "quick" else 3000)]
+    named = [gen_bundle_case(rng, 50000 + i, named=True) for i in range(80 if tier == "quick" else 1500)]
     if tier != "quick":
         cases += exhaustive_cases(n)
     cdir = os.path.join(os.path.dirname(BUILD), "corpus", "C19")
@@ -1222,7 +1435,9 @@ def streams(rng, tier, seed):
     # after every other case or they would crowd out a genuine failure.  On the main stream the same check is
     # evaluated and counted (feature "specificity-inversion") but does not raise.
     return [Stream("dispatch", [impl], model_cmd("C19"), corpus + cases, timeout=1800),
-            Stream(SPEC_STREAM, [impl], model_cmd("C19"), spec, timeout=600)]
+            Stream(SPEC_STREAM, [impl], model_cmd("C19"), spec, timeout=600),
+            # named bundles are outside the Lean model: implementation + monitor only
+            Stream(BUNDLE_STREAM, [impl], None, named, timeout=600)]
 
 
 # ------------------------------------------------------------------------------------------------
@@ -1372,6 +1587,11 @@ def _check_call(ln, args, o, family, order, perms, bad, feats, spec):
     if list(solo) != order:
         bad.append("solo report lists %s, family is %s" % (list(solo), order))
         return False
+    for l in order:
+        if len(family[l][0]) == len(args):
+            for (pk, pat), (ak, a) in zip(family[l][0], args):
+                if pk == "ts" and ak == "ts":
+                    _bundle_relation(pat, a, feats)
     for k, a in args:
         if k == "ts" and a[0] == "REF": feats.add("arg:REF")
         if k == "ts" and a[0] != "REF" and deref(a) != a: feats.add("arg:nested-REF")
